@@ -14,8 +14,10 @@ Precipitation states (binary, ternary, two-phase; isothermal runs so that the bi
   c12.growth_sign       in every observed state with DF > 0 and critical radius above the minimum radius, class
                         boundaries with R > R*(1+d) grow and R < R*(1-d) shrink, d = 1e-2 (+ 2/DF_molar for the
                         binary offset)
-Not asserted: values of the curvature method; ordered/disordered precipitates where the tangent method falls
-back to sampling are only covered through the trajectories.
+Multicomponent backends (Al-Mg-Si with five stoichiometric precipitates, Ni-Al-Cr with an ordered precipitate):
+  c12.methods_value     Al-Mg-Si: tangent / approximate / sampling agree to the 1 J/mol offset (+- 1 J/mol)
+  c12.methods_sign      a method has the sign that at least two of the other three report with more than 300 J/mol
+Not asserted: values of the curvature method; values for the non-stoichiometric ordered precipitate.
 """
 import numpy as np
 
@@ -49,6 +51,7 @@ NT = {'quick': 6, 'thorough': 40}
 NG = {'quick': 12, 'thorough': 60}
 NTRAJ = {'quick': 10, 'thorough': 70}
 NMULTI = {'quick': 5, 'thorough': 30}
+NMETH = {'quick': 4, 'thorough': 40}
 
 
 def plan(tier, seed):
@@ -60,6 +63,8 @@ def plan(tier, seed):
     for i in range(NMULTI[tier]):
         cases.append({'kind': 'multiT', 'pattern': ['decreasing', 'cycle', 'grid', 'random', 'increasing'][i % 5], 'n': 5 + i % 4,
                       'weight': 5e4})
+    for i in range(NMETH[tier]):
+        cases.append({'kind': 'multi_methods', 'system': ['almgsi', 'nialcr'][i % 2], 'npoints': 12 if tier == 'quick' else 25, 'weight': 2e5})
     for i in range(NTRAJ[tier]):
         r = core.case_rng(seed, PROPERTY, 100 + i)
         system = ['alzr', 'nialcr', 'almgsi', 'nialcr', 'alzr'][i % 5]
@@ -97,6 +102,8 @@ def run_case(case, R):
         return _trajectory(case, R)
     if case['kind'] == 'multiT':
         return _multi_temperature(case, R)
+    if case['kind'] == 'multi_methods':
+        return _multi_methods(case, R)
     T = case['T']
     th = _therm('tangent')
     rng = core.case_rng(case['seed'], PROPERTY, case['idx'], 3)
@@ -151,6 +158,66 @@ def run_case(case, R):
             R.check('c12.methods_value', bool(np.all(np.abs(dm - dft) <= 2.0)), dict(mech, method=method), T=T, x=xgrid, tangent=dft, other=dm)
     R.info.update({'T': T, 'stable_g': int(np.sum(stable)), 'solvus': x0})
     R.set_nontrivial(int(np.sum(stable)) >= 3)
+
+
+_MTH = {}
+
+
+def _multi_methods(case, R):
+    """Last clause on the multicomponent backends. Al-Mg-Si: five stoichiometric precipitates -> tangent / approximate /
+    sampling agree in value (measured 6e-11 J/mol beyond the documented 1 J/mol offset), all four agree in sign.
+    Ni-Al-Cr: ordered, non-stoichiometric precipitate -> sign only, and 'away from the solvus' is decided by the other
+    methods: when at least two of the other three methods report more than 300 J/mol of one sign, the method under test
+    must have that sign. The tangent object is brand new for every point (a long-lived one is history dependent: C09)."""
+    import warnings
+    warnings.filterwarnings('ignore')
+    system = case['system']
+    rng = core.case_rng(case['seed'], PROPERTY, case['idx'], 7)
+    methods = ['tangent', 'approximate', 'sampling', 'curvature']
+    for m in methods[1:]:
+        if (system, m) not in _MTH:
+            _MTH[(system, m)] = precip.make_therm(system, None, None, m)
+    phases = _MTH[(system, 'approximate')].phases[1:]
+    nfar = 0
+    for k in range(case['npoints']):
+        if system == 'almgsi':
+            x = np.exp(rng.uniform(np.log(1e-4), np.log(0.03), 2))
+            T = float(rng.uniform(350, 800))
+        else:
+            x = np.array([rng.uniform(0.02, 0.2), rng.uniform(0.005, 0.12)])
+            T = float(rng.uniform(800, 1350))
+        objs = dict((m, _MTH[(system, m)]) for m in methods[1:])
+        objs['tangent'] = precip.make_therm(system, None, None, 'tangent')
+        for ph in phases:
+            vals = {}
+            for m in methods:
+                try:
+                    dg, _ = objs[m].getDrivingForce(np.array(x, copy=True), T, precPhase=ph)
+                    vals[m] = float(np.squeeze(dg)) if dg is not None else float('nan')
+                except Exception as e:
+                    R.exception('c12.methods_sign', e, {'system': system, 'method': m}, T=T, x=x, phase=ph)
+                    vals[m] = float('nan')
+            R.observe('multi_method_points')
+            for m in methods:
+                others = np.array([vals[o] for o in methods if o != m])
+                for sg in (1, -1):
+                    if np.sum(sg * others > 300) >= 2:
+                        nfar += 1
+                        v = vals[m]
+                        ok = np.isfinite(v) and sg * v > 0
+                        pattern = None
+                        if not ok:
+                            pattern = ('small_opposite' if np.isfinite(v) and abs(v) < 150 else 'large_opposite' if np.isfinite(v) else 'not_finite') \
+                                + ('_others_positive' if sg > 0 else '_others_negative')
+                        R.check('c12.methods_sign', ok, {'system': system, 'method': m, 'pattern': pattern, 'stoichiometric': system == 'almgsi'},
+                                T=T, x=x, phase=ph, values=vals)
+            if system == 'almgsi':
+                d = max(abs(vals['approximate'] - vals['tangent'] + 1.0), abs(vals['sampling'] - vals['tangent'] + 1.0))
+                R.worst('c12_multi_method_value_diff_beyond_offset', d)
+                R.check('c12.methods_value', d <= 1.0, {'system': system, 'stoichiometric': True}, T=T, x=x, phase=ph, values=vals)
+    R.observe('multi_method_far_from_solvus_evaluations', nfar)
+    R.info.update({'system': system, 'points': case['npoints'], 'far': nfar})
+    R.set_nontrivial(nfar >= 10)
 
 
 def _multi_temperature(case, R):
